@@ -493,7 +493,7 @@ func parseContractFile(data, file, pkgPath string) ([]*Contract, error) {
 						cur.Modifies = append(cur.Modifies, p)
 					}
 				}
-			case "requires", "ensures", "fails_if", "cover", "let", "letpost", "loop", "assume_env":
+			case "requires", "ensures", "fails_if", "cover", "let", "letpost", "loop", "assume_env", "apply":
 				cl := &Clause{Kind: word}
 				if word == "fails_if" {
 					cl.Kind = "failsif"
